@@ -164,7 +164,13 @@ def check(ctx, name):
     if len(facts["made"]) != 1:
         raise AnalysisError("the rewriter is not instantiated exactly once")
     told = {**facts["made"][0].kwargs}
-    vals = [v for v in told.values() if isinstance(v, str)]
+    # the names the rewriter emits for entry point / table / own code (other texts it is told - the method's name, a
+    # file name - are not names of planted globals)
+    try:
+        role_params = {v[1] for v in A.rewriter_roles(ctx.repo).values()}
+    except AnalysisError:
+        role_params = set(told)
+    vals = [v for k, v in told.items() if isinstance(v, str) and k in role_params]
     g = out.__globals__
     bound = {v: g.get(v) for v in vals}
     if not any(b is facts["dispatch"] for b in bound.values()):
